@@ -9,7 +9,7 @@ use crate::engine::{catch, h64, par_range, run_generated, show_bytes, Ctx, Stats
 use crate::oracle::hex::{ref_encode, ref_shape};
 use crate::props::c01::{addr_strategy, byte_strategy, FrameCase};
 
-pub const RULE: &str = "for each generated valid frame (boundary-biased address/type/content, lengths biased small but including 255), with and without CRLF, the complete single-fault neighbourhood is enumerated: every position x every replacement byte 0..=255 (structural alphabet + 16 pseudo-random bytes for frames with more than 64 data bytes), every deletion, duplication, adjacent transposition of unequal characters and proper prefix; the same for generated frames whose data spells out another complete frame such that one damaged character leaves a well-formed tail (only a decoder that insists on the leading colon rejects those); plus generated forgeries of the right shape whose length field or checksum is wrong (hex letters in random case). Oracle: decode = Err or Ok(original); forgeries must be Err; no panic. Non-trivial = a mutant that still has the documented shape (only the length/checksum logic can reject it) or that touches the terminator, and every forgery; distinct by (frame, crlf, operator, position, byte)";
+pub const RULE: &str = "for each generated valid frame (boundary-biased address/type/content, lengths biased small but including 255), with and without CRLF, the complete single-fault neighbourhood is enumerated: every position x every replacement byte 0..=255 (structural alphabet + 16 pseudo-random bytes for frames with more than 64 data bytes), every deletion, duplication, adjacent transposition of unequal characters and proper prefix; the same for generated frames whose data spells out another complete frame such that one damaged character leaves a well-formed tail (only a decoder that insists on the leading colon rejects those); plus generated forgeries of the right shape whose length field or checksum is wrong (hex letters in random case), including oversize lines that carry more data bytes than declared (up to 855, length field = count mod 256 / declared / FF, checksum consistent over the whole line or over the declared part). Oracle: decode = Err or Ok(original); forgeries must be Err; no panic. Non-trivial = a mutant that still has the documented shape (only the length/checksum logic can reject it) or that touches the terminator, and every forgery; distinct by (frame, crlf, operator, position, byte)";
 pub const ASSUMPTIONS: &[&str] = &["mutants are derived from the harness's own reference encoding of the frame (oracle/hex.rs), which C01 shows to be byte-identical to Frame::to_bytes"];
 
 #[derive(Serialize, Deserialize, Debug, Clone, Copy, PartialEq, Eq, Hash)]
@@ -215,6 +215,11 @@ pub enum Forge {
     Length { delta: u8 },
     /// checksum = right checksum + delta (mod 256)
     Checksum { delta: u8 },
+    /// `extra` more data bytes than declared are on the line (so that the line may carry more than 255 data bytes);
+    /// the length field is the true count mod 256 (mode 0), the count without the extra bytes (mode 1) or FF (mode 2); the
+    /// checksum is consistent over the whole line (`over_all`) or over just the declared number of data bytes - what a
+    /// decoder that stops counting at the declared or the maximal length would compute
+    Oversize { extra: u16, mode: u8, over_all: bool },
 }
 
 #[derive(Serialize, Deserialize, Debug, Clone)]
@@ -238,6 +243,21 @@ fn forge_bytes(c: &ForgeryCase) -> Vec<u8> {
             let sum = fields.iter().fold(0u8, |a, &b| a.wrapping_add(b));
             fields.push(0u8.wrapping_sub(sum).wrapping_add(delta));
         }
+        Forge::Oversize { extra, mode, over_all } => {
+            let declared_data = c.frame.data.len();
+            for k in 0..extra as u64 {
+                fields.push(h64(&(c.case_seed, "extra", k)) as u8);
+            }
+            let n = declared_data + extra as usize;
+            fields[0] = match mode % 3 {
+                0 => n as u8,
+                1 => declared_data as u8,
+                _ => 0xFF,
+            };
+            let counted = if over_all { fields.len() } else { (4 + fields[0] as usize).min(fields.len()) };
+            let sum = fields[..counted].iter().fold(0u8, |a, &b| a.wrapping_add(b));
+            fields.push(0u8.wrapping_sub(sum));
+        }
     }
     let mut out = vec![b':'];
     for (i, b) in fields.iter().enumerate() {
@@ -256,6 +276,16 @@ fn forge_bytes(c: &ForgeryCase) -> Vec<u8> {
 pub fn check_forgery(c: &ForgeryCase, st: &mut Stats) -> Result<(), String> {
     let delta = match c.forge {
         Forge::Length { delta } | Forge::Checksum { delta } => delta,
+        Forge::Oversize { extra, mode, .. } => {
+            // not a forgery if the declared length is the true one
+            let n = c.frame.data.len() + extra as usize;
+            let declared = match mode % 3 {
+                0 => n % 256,
+                1 => c.frame.data.len(),
+                _ => 255,
+            };
+            (declared != n) as u8
+        }
     };
     if delta == 0 {
         return Ok(());
@@ -266,6 +296,7 @@ pub fn check_forgery(c: &ForgeryCase, st: &mut Stats) -> Result<(), String> {
     st.class(match c.forge {
         Forge::Length { .. } => "forged-length",
         Forge::Checksum { .. } => "forged-checksum",
+        Forge::Oversize { .. } => "forged-oversize-line",
     });
     if st.want_sample() {
         st.sample(json!({"forgery": show_bytes(&bytes), "kind": format!("{:?}", c.forge)}));
@@ -275,7 +306,7 @@ pub fn check_forgery(c: &ForgeryCase, st: &mut Stats) -> Result<(), String> {
         Ok(Ok(f)) => Err(format!(
             "a frame whose {} was accepted: {} -> {f}",
             match c.forge {
-                Forge::Length { .. } => "declared length disagrees with its data",
+                Forge::Length { .. } | Forge::Oversize { .. } => "declared length disagrees with its data",
                 Forge::Checksum { .. } => "checksum does not match",
             },
             show_bytes(&bytes)
@@ -386,6 +417,31 @@ pub fn run(ctx: &Ctx) {
         },
     );
 
+    // oversize lines, systematically: frames of 0, 1, 254 and 255 declared data bytes with 1..=3 and 255..=258 extra bytes, all
+    // three length-field modes, checksum over the line / over the declared part
+    let mut oversize: Vec<ForgeryCase> = vec![];
+    for len in [0usize, 1, 2, 16, 254, 255] {
+        for extra in [1u16, 2, 3, 255, 256, 257, 258, 512] {
+            for mode in 0..3u8 {
+                for over_all in [false, true] {
+                    for crlf in [false, true] {
+                        oversize.push(ForgeryCase {
+                            frame: FrameCase { addr: 0x1234, ty: (len as u8) ^ 5, data: (0..len).map(|k| (k as u8).wrapping_mul(29)).collect() },
+                            forge: Forge::Oversize { extra, mode, over_all },
+                            crlf,
+                            case_seed: extra as u64 * 7 + len as u64,
+                        });
+                    }
+                }
+            }
+        }
+    }
+    par_range(ctx, "oversize-lines", oversize.len() as u64, |i, st| {
+        let c = &oversize[i as usize];
+        check_forgery(c, st).map_err(|m| (serde_json::to_value(c).unwrap(), m))
+    });
+    ctx.part_done("oversize-lines", true, json!({"cases": oversize.len(), "what": "lines with more data bytes than declared, up to 767 data bytes: length field = count mod 256 / declared / FF, checksum over the line / over the declared part"}));
+
     run_generated(
         ctx,
         "forgery",
@@ -394,8 +450,9 @@ pub fn run(ctx: &Ctx) {
             (
                 small_frame_strategy(),
                 prop_oneof![
-                    (1u8..=255).prop_map(|delta| Forge::Length { delta }),
-                    (1u8..=255).prop_map(|delta| Forge::Checksum { delta }),
+                    4 => (1u8..=255).prop_map(|delta| Forge::Length { delta }),
+                    4 => (1u8..=255).prop_map(|delta| Forge::Checksum { delta }),
+                    1 => (prop_oneof![2 => 1u16..=8, 3 => 250u16..=262, 1 => 1u16..=600], 0u8..3, any::<bool>()).prop_map(|(extra, mode, over_all)| Forge::Oversize { extra, mode, over_all }),
                 ],
                 any::<bool>(),
                 any::<u64>(),
@@ -413,7 +470,7 @@ pub fn replay(part: &str, case: &Value) -> Result<(), String> {
             let c: MutantCase = serde_json::from_value(case.clone()).map_err(|e| format!("bad case: {e}"))?;
             check_mutant(&c, &mut st)
         }
-        "forgery" => {
+        "forgery" | "oversize-lines" => {
             let c: ForgeryCase = serde_json::from_value(case.clone()).map_err(|e| format!("bad case: {e}"))?;
             check_forgery(&c, &mut st)
         }
